@@ -23,6 +23,9 @@ HOSTILE_TZIDS = ["Europe", "America/Indiana", "A" * 300, "A" * 255, "A" * 256, "
                  "\u00e9" * 300, "\U0001F600" * 64, "/x", "", " ", ".", "..", "Europe/..", "../../x", "Europe/Berlin/", "Europe/Berlin ", "europe/berlin",
                  "\x00", "Europe/Berlin\x00", "Etc/GMT+0\n", "posixrules", "tzdata.zi", "zone.tab", "GMT+1", "+01:00", "\ud800", "x\ud800y"]
 TOKENS += ["TZID=" + t for t in HOSTILE_TZIDS if "\ud800" not in t and "\n" not in t and t not in ("A" * 300,)]
+# RFC 6868 caret sequences and other escapes in parameter values (single and multi-valued): whatever a reader makes of them must not make
+# the serialiser fail with anything but ValueError
+TOKENS += ["^n", "^'", "^^", "CN=a^nb", 'MEMBER="mailto:a","mailto:b^n@x"', 'MEMBER="a^nb",c', "X-P=^n,^n", 'CN="x^\'y"', "CN=a\\nb", 'DELEGATED-TO="a\\n","b"']
 VTZ = """BEGIN:VTIMEZONE
 TZID:Custom
 BEGIN:STANDARD
@@ -249,6 +252,14 @@ def run(b, tier, seed, findings, known_seen):
             for bad, msg in isolation_cases():
                 cases += 1
                 fails.setdefault(("iso", bad), {"witness": {"isolation": bad, "provider": prov}, "detail": f"[{prov}] line {bad!r}: {msg}"})
+            for line in ('ATTENDEE;MEMBER="mailto:a","mailto:b^n@x":mailto:j@example.com', "ATTENDEE;CN=a^nb:mailto:j@example.com",
+                         'ATTENDEE;X-P="^n","^^","^\'":mailto:j@example.com', "SUMMARY;X-P=^n,^n:x", 'ATTENDEE;DELEGATED-TO="a\\n","b":mailto:j@example.com'):
+                cases += 1
+                text = "BEGIN:VCALENDAR\r\nBEGIN:VEVENT\r\n" + line + "\r\nEND:VEVENT\r\nBEGIN:VTODO\r\n" + line + "\r\nEND:VTODO\r\nEND:VCALENDAR\r\n"
+                msg = one(text, False, False, True)
+                if msg and len(fails) < 18:
+                    fails.setdefault((prov, "caret", msg[:40]), {"witness": {"text": text, "multiple": False, "bytes": False, "walk": True, "provider": prov},
+                                                               "detail": f"[{prov}] {msg} on {text[:160]!r}"})
             for text in vtimezone_extremes():
                 cases += 1
                 text = text.replace("Verif/Extreme-", f"Verif/{prov}-{seed}-Extreme-")
